@@ -51,8 +51,18 @@ def handle (tb : Tables) (c impl : T) : String :=
        else if tb.argsInPlace then "dev D25"
        else "mismatch spec-bad (obs (l true true true true) true)"
      | _ => "bad-op")
+  | .node "c11a" [_] =>
+    -- arguments out of order / undeclared / under a list or union, a subscription request resolved twice; obs as
+    -- for c11m.  The model is the property itself.  With the argument list rearranged and checked at the first use
+    -- of a field only (D93) the second resolve, the second member, the printed form differ.
+    (match impl with
+     | .node "obs" [.node "l" sames, printed] =>
+       if sames.all (· == T.ofBool true) && printed == T.ofBool true then "ok"
+       else if tb.argsSortedOnce then "dev D93"
+       else "mismatch spec-bad (obs (l true…) true)"
+     | _ => "bad-op")
   | _ => "bad-op"
 
-def flags (tb : Tables) : List (String × Bool) := [("D25", tb.argsInPlace)]
+def flags (tb : Tables) : List (String × Bool) := [("D25", tb.argsInPlace), ("D93", tb.argsSortedOnce)]
 
 end Ggql.Driver.C11
